@@ -2,6 +2,7 @@
 package c05
 
 import (
+	"errors"
 	"fmt"
 	"regexp"
 	"strings"
@@ -659,6 +660,20 @@ func parserErrLoc(c *common.Ctx, in *lexgen.Input, text string, off int) {
 	w := at(in, loc, off)
 	if w == "" {
 		c.Outcome("stray-bracket:errloc-ok")
+		// the same error through the recovery entry point: its ParseError carries a location of its own
+		p2 := parser.NewParser()
+		defer p2.Release()
+		_, errs := p2.ParseWithRecoveryFromModelTokens(run.Toks)
+		if len(errs) > 0 {
+			var pe *parser.ParseError
+			if errors.As(errs[0], &pe) && pe.Line > 0 {
+				rl := models.Location{Line: pe.Line, Column: pe.Column}
+				if rw := at(in, rl, off); rw != "" {
+					c.Outcome("stray-bracket:recovery-errloc-wrong")
+					emit(c, []fail{{"errloc:recovery:" + rw + ":" + code, fmt.Sprintf("recovery parsing reports the first error (%s) at %s; the strict position-tracking parse locates it correctly at %s", code, locStr(rl), locStr(loc))}})
+				}
+			}
+		}
 		return
 	}
 	// inherited from the tokenizer: the ']' token itself is mislocated (reported separately as a token position failure)
